@@ -500,7 +500,10 @@ func cmdParseGroups(args []string) {
 	observe := fs.Bool("observe", false, "also record String/GoString/Marshal/ToPostgres/ToParameterizedPostgres")
 	withSQL := fs.Bool("sql", false, "also record both SQL renderings as PostgreSQL's parser reads them")
 	withJSON := fs.Bool("json", false, "also record the JSON round trip of every returned expression")
+	gshard := fs.String("shard", "0/1", "process group lines i mod k")
 	fs.Parse(args)
+	var gsi, gsk int
+	fmt.Sscanf(*gshard, "%d/%d", &gsi, &gsk)
 	r, closeFn := newRecorder(*out, *trace != "")
 	defer closeFn()
 	var tw *bufio.Writer
@@ -521,7 +524,12 @@ func cmdParseGroups(args []string) {
 	sc := bufio.NewScanner(f)
 	sc.Buffer(make([]byte, 1<<20), 1<<28)
 	groups, calls, accepted, traced := 0, 0, 0, 0
+	lineNo := -1
 	for sc.Scan() {
+		lineNo++
+		if gsk > 1 && lineNo%gsk != gsi {
+			continue
+		}
 		var g GroupIn
 		if err := json.Unmarshal(sc.Bytes(), &g); err != nil {
 			fatal(fmt.Errorf("group %d: %v", groups+1, err))
